@@ -48,7 +48,9 @@ import (
 //       Commit answers like the pinned one) — compared on Ret, VmError, GasUsed, logs, the estimate, trace data, gRPC values;
 //   (c) for programs that read neither block context nor the sender's balance the delivered call (same from/to/data/value/gas
 //       limit, next transaction on that state) has the same Ret, logs and gas used as eth_call predicted, and delivered with
-//       the estimate as gas limit it does not run out of gas;
+//       the estimate as gas limit it does not run out of gas; the request-argument shape (fee fields × access list × value ×
+//       nonce × data / input spelling, c08_shape.go) is a dimension of this oracle: every shape is delivered as the transaction
+//       of the matching type (legacy / EIP-2930 / EIP-1559) with the same access list, gas limit and fee fields;
 //   (k) mechanism level: the gRPC handler, routed exactly like BaseApp does, leaves the persistent stores of the query context
 //       it was given untouched (tracing excepted: it replays predecessors into its context by design).
 //   (d) process-state pass (c08_proc.go): histories whose blocks change what EVM execution is set up from (precompile deployed,
@@ -71,6 +73,7 @@ var (
 	c08AddrBlockCtx   = common.HexToAddress("0x00000000000000000000000000000000000c0803") // returns NUMBER, TIMESTAMP, COINBASE, GASLIMIT
 	c08AddrBalance    = common.HexToAddress("0x00000000000000000000000000000000000c0804") // returns BALANCE(CALLER)
 	c08AddrBalanceOf  = common.HexToAddress("0x00000000000000000000000000000000000c0805") // returns BALANCE(calldata[0])
+	c08AddrCallValue  = common.HexToAddress("0x00000000000000000000000000000000000c0809") // slot3 := CALLVALUE, LOG1(topic CALLVALUE), returns CALLVALUE: return data, log and gas used all depend on the value
 	c08AddrSpender    = common.HexToAddress("0x00000000000000000000000000000000000c08ee") // plain address (approve target)
 )
 
@@ -113,7 +116,10 @@ func c08Contracts() []world.Contract {
 		heavy.Sstore(uint64(i), 0)
 		heavySt[h(uint64(i))] = h(9)
 	}
+	cv := asm.New().Op(asm.CALLVALUE).PushU(3).Op(asm.SSTORE).Op(asm.CALLVALUE).PushU(0).Op(asm.MSTORE).
+		Op(asm.CALLVALUE).PushU(32).PushU(0).Op(asm.LOG1).PushU(32).PushU(0).Op(asm.RETURN)
 	return append(cs,
+		world.Contract{Addr: c08AddrCallValue, Code: cv.Bytes()},
 		world.Contract{Addr: c08AddrClearHeavy, Code: heavy.Stop().Bytes(), Storage: heavySt},
 		world.Contract{Addr: c08AddrBalanceOf, Code: balOf.Bytes()},
 		world.Contract{Addr: c08AddrGasBranch, Code: gb.Assemble()},
@@ -147,6 +153,7 @@ var c08Programs = []c08Prog{
 	{Name: "transfer", To: AddrSink, Value: 3, Gas: 21000, Predictive: true, Expect: "ok"},
 	{Name: "log", To: AddrLog2, Gas: 100000, Predictive: true, Expect: "ok"},
 	{Name: "sstore-set", To: AddrSstore, Gas: 100000, Predictive: true, Expect: "ok"},
+	{Name: "callvalue", To: c08AddrCallValue, Value: 5, Gas: 100000, Predictive: true, Expect: "ok"},
 	{Name: "sstore-clear-refund", To: AddrSclear, Gas: 100000, Predictive: true, Expect: "ok"},
 	{Name: "sstore-clear-heavy-refund", To: c08AddrClearHeavy, Gas: 400000, Predictive: true, Expect: "ok"},
 	{Name: "create", Create: true, Data: func(*c08Env) []byte { return createOKInit() }, Gas: 200000, Predictive: true, Expect: "ok"},
@@ -210,6 +217,9 @@ type c08Req struct {
 	Block  int    `json:"block,omitempty"`  // trace: index of the history block, -1 = block h+1
 	Tx     int    `json:"tx,omitempty"`     // tracetx: position in the block
 	Tracer string `json:"tracer,omitempty"` // "" = struct logger
+	// ethcall / estimate: the request-argument shape (c08_shape.go): which optional fields of TransactionArgs the request
+	// carries; the delivered twin is the transaction of the matching type with the same access list, gas limit and fee fields
+	Shape *c08Shape `json:"shape,omitempty"`
 }
 
 func (r c08Req) String() string {
@@ -225,6 +235,9 @@ func (r c08Req) String() string {
 	}
 	if r.NoGas {
 		s += "+nogas"
+	}
+	if r.Shape != nil {
+		s += r.Shape.String()
 	}
 	if r.Kind == "tracetx" || r.Kind == "traceblock" {
 		s += fmt.Sprintf("[b%d", r.Block)
@@ -732,11 +745,11 @@ func (e *c08Env) build(r c08Req) c08Built {
 		if r.Gwei != 0 {
 			price = new(big.Int).Mul(big.NewInt(r.Gwei), Gwei)
 		}
-		gas := p.Gas
+		gas := e.shapeGas(r, p)
 		if r.Kind == "estimate" && r.NoGas {
 			gas = 0
 		}
-		req := &evmtypes.EthCallRequest{Args: e.callArgs(p, gas, price), GasCap: c08GasCap}
+		req := &evmtypes.EthCallRequest{Args: e.shapeArgs(r, p, gas, price), GasCap: c08GasCap}
 		bz, _ := req.Marshal()
 		path := c08EvmQ + "EthCall"
 		if r.Kind == "estimate" {
@@ -1200,9 +1213,9 @@ func c08Run(c c08Case, twins map[string][]string) *c08Obs {
 				continue
 			}
 			if r.Kind == "ethcall" {
-				next, nextFor = e.deliveredNext(e.callTx(p, p.Gas)), i
+				next, nextFor = e.deliveredNext(e.shapeTx(r, p, e.shapeGas(r, p))), i
 			} else if resp[i][0] != nil && resp[i][0].Code == 0 && resp[i][0].Gas > 0 {
-				next, nextFor = e.deliveredNext(e.callTx(p, resp[i][0].Gas)), i
+				next, nextFor = e.deliveredNext(e.shapeTx(r, p, resp[i][0].Gas)), i
 			}
 			break
 		}
@@ -1300,14 +1313,14 @@ func c08Run(c c08Case, twins map[string][]string) *c08Obs {
 		}
 		switch r.Kind {
 		case "ethcall":
-			if p := c08ProgByName(r.Name); p != nil && emptyHistory && i == 0 {
+			if p := c08ProgByName(r.Name); p != nil && emptyHistory && i == 0 && c08ShapeKeepsExpectation(r, p) {
 				okWant := p.Expect == "ok"
 				if r0.Eth == nil || (okWant && r0.Eth.VmError != "") || (!okWant && !strings.Contains(r0.Eth.VmError, p.Expect)) {
 					e.fail("alphabet-sanity", "", "%s on the initial state: want %q, got code=%d log=%q class=%s", r, p.Expect, r0.Code, r0.Log, r0.Class)
 				}
 			}
 		case "estimate":
-			if p := c08ProgByName(r.Name); p != nil && emptyHistory && i == 0 {
+			if p := c08ProgByName(r.Name); p != nil && emptyHistory && i == 0 && c08ShapeKeepsExpectation(r, p) {
 				want := p.EstErr
 				if want == "" && !r.NoGas {
 					want = p.EstErrGas
@@ -1389,6 +1402,9 @@ func (e *c08Env) predict(r c08Req, r0 *c08Resp, txr *abci.ExecTxResult) {
 			return
 		}
 		dl := c08LogsString(dr.MarshalledReceipt)
+		if dr.VmError != r0.Eth.VmError {
+			e.fail("eth-call-predicts-vm-error", "", "%s: eth_call ended with vm error %q, the same call delivered as the next transaction with vm error %q", r, r0.Eth.VmError, dr.VmError)
+		}
 		if !bytes.Equal(dr.Ret, r0.Eth.Ret) {
 			e.fail("eth-call-predicts-return-data", "", "%s: eth_call returned %x (vm error %q), the same call delivered as the next transaction returned %x (vm error %q)", r, r0.Eth.Ret, r0.Eth.VmError, dr.Ret, dr.VmError)
 		}
@@ -1396,9 +1412,10 @@ func (e *c08Env) predict(r c08Req, r0 *c08Resp, txr *abci.ExecTxResult) {
 			e.fail("eth-call-predicts-logs", "", "%s: eth_call logs [%s], delivered logs [%s]", r, r0.Logs, dl)
 		}
 		if dr.GasUsed != r0.Eth.GasUsed {
-			e.fail("eth-call-predicts-gas-used", "", "%s: eth_call gas used %d, delivered with the same gas limit %d: %d (vm errors %q / %q)", r, r0.Eth.GasUsed, p.Gas, dr.GasUsed, r0.Eth.VmError, dr.VmError)
+			e.fail("eth-call-predicts-gas-used", "", "%s: eth_call gas used %d, delivered with the same gas limit %d: %d (vm errors %q / %q)", r, r0.Eth.GasUsed, e.shapeGas(r, p), dr.GasUsed, r0.Eth.VmError, dr.VmError)
 		}
 		e.obs.Info["predictions_checked"]++
+		e.shapeCount(r, "prediction", r0.Eth.VmError)
 		return
 	}
 	if dr == nil {
@@ -1411,6 +1428,7 @@ func (e *c08Env) predict(r c08Req, r0 *c08Resp, txr *abci.ExecTxResult) {
 		e.fail("estimated-call-executes", "", "%s: estimate %d; delivered with that gas limit the call failed: %s", r, r0.Gas, dr.VmError)
 	}
 	e.obs.Info["estimates_delivered"]++
+	e.shapeCount(r, "estimate_delivered", dr.VmError)
 }
 
 // c08Delta renders two answers around their first difference (trace data is shown as text).
@@ -1644,6 +1662,17 @@ func c08Cases(thorough bool) []c08Case {
 		for _, r := range c08Traces(hst, thorough) {
 			cases = append(cases, c08Case{History: hst, Reqs: []c08Req{r}})
 		}
+		// the request-argument shape dimension of the prediction oracles (c08_shape.go): on the state without history; thorough
+		// repeats the quick selection after a block that has written the slots the storage programs use
+		if len(hst) == 0 {
+			for _, r := range c08ShapeReqs(thorough) {
+				cases = append(cases, c08Case{History: hst, Reqs: []c08Req{r}})
+			}
+		} else if thorough && len(hst) == 1 && len(hst[0]) == 3 && hst[0][0] == string(KSstore) {
+			for _, r := range c08ShapeReqs(false) {
+				cases = append(cases, c08Case{History: hst, Reqs: []c08Req{r}})
+			}
+		}
 		// pairs: all ordered pairs over the pair alphabet. Quick: 8-request alphabet on every third history; thorough: the
 		// 16-request alphabet on histories with 0, 1 or >= 3 txs, the 8-request one on the (many) histories with exactly 2 txs
 		pa := pairs
@@ -1677,6 +1706,7 @@ func runC08(replay string) int {
 		"requests enter through BaseApp.Query (gRPC paths, /app/simulate), BaseApp.CheckTx (New / Recheck) and BaseApp.Simulate of the real application; the JSON-RPC layer in front of them is not part of the check",
 		"oracle (b) compares Ret, VmError, GasUsed, logs (address, topics, data), the estimate, trace data and gRPC values; the cumulative gas used inside the marshalled receipt of an eth_call response is not compared (counted as info_*)",
 		"oracle (c) applies to programs marked as reading neither block context nor the sender's balance; call and delivered tx use the same sender, to, data, value and explicit gas limit; the block proposer is the same validator in every block",
+		"oracle (c), shaped requests: the delivered twin is the transaction of the type the request's fields select (legacy: no access list, no 1559 field; type 1: access list without 1559 field; type 2: maxFeePerGas with or without maxPriorityFeePerGas / access list) with the same access list, value, data, gas limit and fee fields; a request without fee fields is delivered at the base fee, maxFeePerGas alone as priority fee 0; the gas limit is the program's plus the intrinsic gas of the list; the nonce field, when given, is the sender's next nonce; data and input, when both given, hold the same bytes",
 		"tracing requests carry an explicit 1h timeout so that the 5 s wall-clock default can never decide an answer",
 		"clause handler-leaves-query-context-stores-unchanged is mechanism level (commit=false): BaseApp discards the query context anyway; TraceTx/TraceBlock replay predecessors into their context by design and are exempt",
 	}
@@ -1749,8 +1779,12 @@ func runC08(replay string) int {
 				at := strings.LastIndex(cl, "@")
 				eq := strings.LastIndex(cl, "=")
 				kind := cl[:at]
+				shaped := strings.Contains(kind, "{fee=")
 				if j := strings.IndexAny(kind, ":["); j >= 0 {
 					kind = kind[:j]
+				}
+				if shaped {
+					kind = "shaped-" + kind
 				}
 				run.Outcome(kind + "=" + cl[eq+1:])
 			}
@@ -1781,9 +1815,12 @@ func runC08(replay string) int {
 		"{eth_call and estimateGas (with / without gas argument, with / without gasPrice) of %d programs %v; %d plain gRPC queries covering every method of x/evm, x/feemarket, x/cpc, x/vauth with in-range, out-of-range and malformed arguments; "+
 		"CheckTx New and Recheck of %d tx kinds (valid incl. state-changing and precompile calls, invalid); Simulate and /app/simulate of 9 kinds; TraceTx of every tx and TraceBlock of the last history block and of block h+1 with struct logger / callTracer%s} "+
 		"and all ordered pairs over a %d-request pair alphabet (%s); the list is issued at 3 points around block h+1 (queries pinned to height h, plus unpinned after FinalizeBlock and after Commit); block h+1 is the delivered call for predictive programs, a fixed block otherwise; "+
-		"every run is followed by a closing block and compared with its twin without requests; a state is (AppHash after the history, interleaving point). PLUS "+c08PRule(run.Thorough())+"; there a state is (history, point, query height)",
+		"every run is followed by a closing block and compared with its twin without requests; a state is (AppHash after the history, interleaving point). PLUS request-argument shapes of the prediction oracle on the history-free state%s: "+
+		"%d shaped eth_call / estimateGas requests = %s of fee fields {none, gasPrice, maxFeePerGas+maxPriorityFeePerGas, maxFeePerGas} × accessList {absent, empty, 1 untouched address, 3 untouched addresses with 0/1/2 keys, callee with slots 0-3, sender+precompiles+zero address} × value {0, >0} × nonce {absent, given} × {data, input, both} (288 shapes), each delivered as the transaction of the matching type (legacy / type 1 / type 2) with the same list, fee fields and gas limit. PLUS "+c08PRule(run.Thorough())+"; there a state is (history, point, query height)",
 		len(hs), map[bool]int{false: 12, true: len(c08HistoryKinds)}[run.Thorough()], map[bool]string{false: "", true: "; all one- and two-block combinations of 8 kinds"}[run.Thorough()],
 		len(c08Programs), progs, len(c08Queries), len(c08TxKinds), map[bool]string{false: "", true: " / prestateTracer / struct logger with memory and return data / struct logger limited to 2 steps / a JavaScript tracer, also of the first history block"}[run.Thorough()],
-		len(c08PairAlphabet(run.Thorough())), map[bool]string{false: "on every third history", true: "on histories with 0, 1 or >= 3 txs; the 8-request pair alphabet on histories with exactly 2 txs"}[run.Thorough()])
+		len(c08PairAlphabet(run.Thorough())), map[bool]string{false: "on every third history", true: "on histories with 0, 1 or >= 3 txs; the 8-request pair alphabet on histories with exactly 2 txs"}[run.Thorough()],
+		map[bool]string{false: "", true: " (and the quick selection once more after the history [sstore, sclear, log2])"}[run.Thorough()], len(c08ShapeReqs(run.Thorough())),
+		map[bool]string{false: "the full product for program chain-63-64, fee × list × value × nonce for sstore-set (no call data), fee × list × value for callvalue (whose return data, log and gas used depend on the value) and the product fee × list for the other predictive programs", true: "the full product for every predictive program, estimateGas with and without gas argument"}[run.Thorough()])
 	return run.Finish()
 }
